@@ -8,6 +8,7 @@ import (
 	"os"
 	"path/filepath"
 	"sync"
+	"sync/atomic"
 	"testing"
 	"time"
 )
@@ -27,6 +28,9 @@ type vfPausePlan struct {
 	Stall bool `json:"link_stalls_around_the_pauses,omitempty"`
 	// ThenSilent: after the last resume the server is never heard again.
 	ThenSilent bool `json:"server_silent_after_resume,omitempty"`
+	// SilentFirst: the server falls silent at the gate, the pause begins 300 ms later while the client's read is
+	// already waiting, and the server stays silent after the resume: the read must still time out.
+	SilentFirst bool `json:"server_silent_from_before_the_pause,omitempty"`
 }
 
 func vfPauseScenarios() []vfScenario {
@@ -123,6 +127,15 @@ func vfPauseCase(c *vfCtx, si int, sc vfScenario, k int) {
 	case k%13 == 11:
 		class = "around"
 		plan.PauseMs = []int{[]int{tau * 900, tau * 1100}[r.Intn(2)]}
+	case k%13 == 8:
+		class = "silent-then-pause"
+		plan.SilentFirst = true
+		plan.PauseMs = []int{[]int{300, 800, 1500}[r.Intn(3)]}
+		if plan.Dir != "s2c" {
+			plan.Dir, msgs = "s2c", bs2c
+			plan.Index = vfMin(plan.Index, len(msgs)-1)
+			plan.Type = msgs[plan.Index].Type
+		}
 	case k%13 == 10:
 		class = "then-silent"
 		plan.ThenSilent = true
@@ -130,16 +143,35 @@ func vfPauseCase(c *vfCtx, si int, sc vfScenario, k int) {
 		if r.Intn(2) == 0 {
 			plan.PauseMs = append(plan.PauseMs, 300)
 		}
-	case k%13 == 9:
+	case k%13 == 9 && sc.Cfg.Dir == "up" && sc.Cfg.Bufsize <= 8192:
+		// Like a slow, busy uplink with a return link that stalls: the first (short) pause happens a few
+		// acknowledgements before the stall, the second begins 500 ms into the stall and ends - after
+		// 0.9 x timeout - when the ack read that began between the two pauses has used up its timer;
+		// the return link recovers 200 ms after the resume.  The server keeps hearing from the client all the time (data
+		// chunks every 200 ms, keep-alives while paused), so neither side sees an unpaused silence of more than ~1 s.
+		var acks []int
+		for i := 9; i+3 < len(bs2c); i++ {
+			ok := true
+			for j := i - 9; j <= i+3; j++ {
+				if bs2c[j].Type != "SUCC" || !bytes.Contains(bs2c[j].Full, []byte("/")) {
+					ok = false
+					break
+				}
+			}
+			if ok {
+				acks = append(acks, i)
+			}
+		}
+		if len(acks) == 0 {
+			c.Inconc("no run of 13 data acknowledgements in the baseline transcript")
+			return
+		}
 		class = "stall"
 		plan.Stall = true
-		plan.PauseMs = []int{200, tau * 850}
-		plan.GapMs = tau*300 - 200
-		if plan.Dir != "s2c" {
-			plan.Dir, msgs = "s2c", bs2c
-			plan.Index = vfMin(plan.Index, len(msgs)-1)
-			plan.Type = msgs[plan.Index].Type
-		}
+		plan.PauseMs = []int{200, tau * 900}
+		plan.Dir, msgs = "s2c", bs2c
+		plan.Index = acks[r.Intn(len(acks))]
+		plan.Type = msgs[plan.Index].Type
 		plan.Before = true
 	default:
 		n := 1 + r.Intn(3)
@@ -168,8 +200,12 @@ func vfPauseCase(c *vfCtx, si int, sc vfScenario, k int) {
 		}
 		return s.filter.transfer.Load()
 	}
-	cycles := func() {
+	var slowUplink atomic.Bool
+	cyclesFrom := func(from, to int) {
 		for i, ms := range plan.PauseMs {
+			if i < from || i >= to {
+				continue
+			}
 			ct := clientTransfer()
 			if ct == nil {
 				return
@@ -211,8 +247,17 @@ func vfPauseCase(c *vfCtx, si int, sc vfScenario, k int) {
 			bufAfter = ct.bufferSize.Load()
 		}
 	}
+	cycles := func() { cyclesFrom(0, len(plan.PauseMs)) }
 	cyclesDone := make(chan struct{})
 	gate := func(ev vfGateEvent) {
+		if plan.Stall && ev.Before == plan.Before {
+			if ev.Index == plan.Index-8 {
+				slowUplink.Store(true)
+			}
+			if ev.Index == plan.Index-4 {
+				go cyclesFrom(0, 1) // the first, ordinary pause; over long before the stall (4 chunks x 200 ms later)
+			}
+		}
 		if ev.Index != plan.Index || ev.Before != plan.Before {
 			return
 		}
@@ -223,13 +268,21 @@ func vfPauseCase(c *vfCtx, si int, sc vfScenario, k int) {
 		}
 		fired = true
 		mu.Unlock()
-		if plan.Stall { // the link is held while the pauses happen
+		if plan.Stall { // the return link is held from here on
 			defer close(cyclesDone)
-			cycles()
+			time.Sleep(500 * time.Millisecond)
+			cyclesFrom(1, 2)
+			slowUplink.Store(false)
 			return
+		}
+		if plan.SilentFirst {
+			s.srvW().SetSilent(true)
 		}
 		go func() {
 			defer close(cyclesDone)
+			if plan.SilentFirst {
+				time.Sleep(300 * time.Millisecond)
+			}
 			cycles()
 		}()
 		if plan.Via == "api" {
@@ -240,6 +293,13 @@ func vfPauseCase(c *vfCtx, si int, sc vfScenario, k int) {
 		s.cliW().SetGate(gate)
 	} else {
 		s.srvW().SetGate(gate)
+	}
+	if plan.Stall {
+		s.cliW().SetGate(func(ev vfGateEvent) {
+			if ev.Before && ev.Type == "DATA" && slowUplink.Load() {
+				time.Sleep(200 * time.Millisecond)
+			}
+		})
 	}
 	t0 := time.Now()
 	s.Start(paths, dst)
